@@ -31,7 +31,19 @@ pub fn set_shard(i: usize) {
     SHARD.with(|s| s.set(i % 64));
 }
 
+/// Externally visible progress only (wire events + API events, no task polls): lets the watchdog tell a
+/// livelock (tasks keep waking each other, nothing observable happens) from a long run.
+pub static SHARD_EXTERNAL: [AtomicU64; 64] = [const { AtomicU64::new(0) }; 64];
+
 pub fn bump_progress() {
+    SHARD.with(|s| {
+        SHARD_PROGRESS[s.get()].fetch_add(1, Ordering::Relaxed);
+        SHARD_EXTERNAL[s.get()].fetch_add(1, Ordering::Relaxed);
+    });
+}
+
+/// A poll of a task: progress for quiescence detection, but not an externally visible event.
+pub fn bump_poll() {
     SHARD.with(|s| SHARD_PROGRESS[s.get()].fetch_add(1, Ordering::Relaxed));
 }
 
@@ -255,6 +267,11 @@ impl Net {
 
     pub fn budget_exceeded(&self) -> bool {
         self.inner.lock().unwrap().budget_exceeded
+    }
+
+    /// Arms a fault while the connection is running (`at` counts frames of that direction from the start).
+    pub fn set_fault(&self, fault: Fault) {
+        self.inner.lock().unwrap().cfg.fault = Some(fault);
     }
 
     pub fn fault_fired(&self) -> bool {
